@@ -1076,6 +1076,18 @@ def extract_impls(repo, types, enums, rendered):
     return out, derived
 
 
+def other_channels(repo):
+    """emission channels other than the tracing level macros in non-test code (none are expected; each one found is
+       reported by ./check as a broken tie, because the tables would not cover it)"""
+    res = []
+    pat = re.compile(r"\b(tracing\s*::\s*(event|span)\s*!|(trace|debug|info|warn|error)_span\s*!|log\s*::\s*(trace|debug|info|warn|error)\s*!|"
+                     r"(println|eprintln|print|eprint|dbg)\s*!\s*\(|#\[\s*(tracing\s*::\s*)?instrument)")
+    for crate, rel, rel_src, src in sources(repo):
+        for m in pat.finditer(src):
+            res.append(f"{rel}:{line_of(src, m.start())} {m.group(0)[:30]}")
+    return res
+
+
 # ------------------------------------------------------------------------------------------------
 # emit
 
@@ -1144,7 +1156,7 @@ def generate(repo=REPO, write=True):
                 f.write(text)
     return dict(logSites=logs, errorFormats=fmts, errorCtors=ctors, fmtImpls=impls, derivedDebug=derived,
                 derivedResultDebug=derived_res, derivedRecordDebug=derived_rec,
-                rules=sorted(RULES_USED.items()), site_rules=[dict(file=a, fn=b, expr=c, cls=e, why=f) for a, b, c, d, e, f in SITE_RULES])
+                other_channels=other_channels(repo), rules=sorted(RULES_USED.items()), site_rules=[dict(file=a, fn=b, expr=c, cls=e, why=f) for a, b, c, d, e, f in SITE_RULES])
 
 
 def summary(t):
